@@ -27,7 +27,7 @@ EXTENDS TemplatesLib
 CONSTANTS Content,      \* key id -> [rn |-> resname, g |-> residue graph, u |-> <<lattice coordinates in the order of g.nm>>]
           Systems,      \* set of systems; a system is a sequence of molecules, a molecule a sequence of key ids (residues in node order)
           BuildFiles,   \* set of build files; a build file is a sequence of entries [e |-> "T" | "V", k |-> key id or "", rn |-> resname, v |-> size in 1/1000 nm]
-          DevVolLost,        \* as the code is (finding user-volume-lost-for-other-variant): r2h keeps one key per residue name and Finalize deletes vols[rn]
+          DevVolLost,        \* deviation (repaired finding F21 user-volume-lost-for-other-variant): r2h keeps one key per residue name and Finalize deletes vols[rn]
           DevVolOverwritten, \* deviation: generation ignores a user volume (mutant m43)
           DevUserRegen,      \* deviation: a user template is generated again
           DevRecentre        \* deviation: user coordinates re-centred around another point (the first atom)
